@@ -159,7 +159,29 @@ def num_attr(ex, v: Num, attr, node):
     return None
 
 
+RAW_COMMON_ATTRS = {"shape", "ndim"}  # available on ndarray, Series and DataFrame alike
+
+
+def is_raw(v):
+    return isinstance(v, OpaqueV) and v.meta.get("kind") == "raw"
+
+
+def contains_raw(v):
+    if is_raw(v):
+        return True
+    if isinstance(v, (ListV, TupleV)):
+        return any(contains_raw(x) for x in v.items)
+    return False
+
+
 def opaque_attr(ex, v: OpaqueV, attr, node):
+    if v.meta.get("kind") == "raw":
+        if attr == "shape":
+            return OpaqueV(f"shape({v.key})", {"kind": "rawshape", "of": v})
+        if attr == "ndim":
+            return Num(app("ndim", v.key), (), "int")
+        ex.emit("raw_use", node, what=f".{attr}", value=v)
+        return OpaqueV(f"{v.key}.{attr}", {"recv": v, "attr": attr})
     if v.meta.get("kind") == "interval":
         if attr == "left":
             return v.meta["lo"]
@@ -171,6 +193,14 @@ def opaque_attr(ex, v: OpaqueV, attr, node):
 
 
 def opaque_getitem(ex, base, idx, node):
+    if isinstance(base, OpaqueV) and base.meta.get("kind") == "rawshape":
+        c = cint(idx[0]) if idx and isinstance(idx[0], Num) else None
+        if c == 0:
+            return Num(sym("n"), (), "int", meta={"kind": "COUNT"})
+        return Num(app("dim", base.key, c if c is not None else valkey(idx[0])), (), "int")
+    if is_raw(base):
+        ex.emit("raw_use", node, what="[...] subscript", value=base)
+        return OpaqueV(f"{base.key}[...]")
     if isinstance(base, OpaqueV) and base.meta.get("kind") in ("iloc",):
         of = base.meta["of"]
         if isinstance(of, Num):
@@ -282,6 +312,9 @@ def index_num(ex, base: Num, idx, node):
                 parts.append(("gather", comp.nf))
                 out_shape.extend(comp.shape)
                 axis += 1
+        elif isinstance(comp, (ListV, TupleV)) and not getattr(comp, "opaque", False) and comp.items and all(isinstance(x, StrV) for x in comp.items):
+            ex.emit("name_access", node, base=base, name=comp.items[0])
+            return OpaqueV(f"{valkey(base)}[{valkey(comp)}]", {"kind": "frame", "by_name": comp})
         elif isinstance(comp, (ListV, TupleV)) and not getattr(comp, "opaque", False):
             parts.append(("gatherlist", tuple(valkey(x) for x in comp.items)))
             out_shape.append(NF.const(len(comp.items)))
@@ -289,6 +322,9 @@ def index_num(ex, base: Num, idx, node):
         elif isinstance(comp, NoneV):
             parts.append("newaxis")
             out_shape.append(NF.const(1))
+        elif isinstance(comp, StrV):
+            ex.emit("name_access", node, base=base, name=comp)
+            return OpaqueV(f"{valkey(base)}[{comp.key}]", {"kind": "series", "by_name": comp})
         elif isinstance(comp, OpaqueV):
             parts.append(("opq", comp.key))
             out_shape.append(None)
@@ -483,7 +519,12 @@ def model(*names):
     return deco
 
 
+RAW_OK_CALLEES = {"builtins.len", "builtins.isinstance", "builtins.type", "builtins.id", "pandas.DataFrame", "numpy.asarray", "numpy.array", "sktime.utils.validation.series.check_series", "builtins.print", "builtins.str", "builtins.repr"}
+
+
 def call_ext(ex, dotted, args, kwargs, node, frame):
+    if dotted not in RAW_OK_CALLEES and (any(contains_raw(a) for a in args) or any(contains_raw(a) for a in kwargs.values())):
+        ex.emit("raw_use", node, what=f"operand of {dotted}", value=None)
     f = EXT.get(dotted)
     if f is not None:
         return f(ex, args, kwargs, node)
@@ -561,6 +602,8 @@ def _len(ex, args, kwargs, node):
         return Num(app("rangelen", v.lo.nf, v.hi.nf, v.step.nf), (), "int")
     if isinstance(v, DictV):
         return Num(NF.const(len(v.items)), (), "int")
+    if is_raw(v):
+        return Num(sym("n"), (), "int", meta={"kind": "COUNT", "len_of": v})
     if isinstance(v, (OpaqueV, BoundExt)):
         r = ex.mk("len", valkey(v), shape=(), dtype="int")
         r.meta["kind"] = "COUNT"
@@ -1016,7 +1059,10 @@ def _arr(ex, v, node):
 @model("numpy.zeros", "numpy.ones", "numpy.empty")
 def _np_zeros(ex, args, kwargs, node, fill=None):
     shape = _shape_from(args[0], node)
-    dt = _dtype_of(_kw(args, kwargs, 1, "dtype")) or "float"
+    dkw = _kw(args, kwargs, 1, "dtype")
+    # default float64; an explicit dtype that cannot be resolved statically (e.g. x.dtype)
+    # makes the array's type depend on an argument
+    dt = "float" if dkw is None or isinstance(dkw, NoneV) else _dtype_of(dkw)
     a = ex.new_array(("zeros",), shape, dt, node)
     return ex.arr_value(a)
 
@@ -1132,6 +1178,9 @@ def _np_array(ex, args, kwargs, node):
             r = ex.mk("rows", tuple(valkey(x) for x in rows), shape=(NF.const(len(rows)),) + tuple(rows[0].shape or ()), dtype=dt)
             return r
         r = ex.mk("array", tuple(valkey(x) for x in items), shape=None, dtype=dt)
+        return r
+    if is_raw(v):
+        r = Num(sym("X"), None, dt, "ndarray", meta={"alias_of": v, "normalised": True})
         return r
     if isinstance(v, OpaqueV):
         r = ex.mk("asarray", v.key, shape=None, dtype=dt)
@@ -1512,6 +1561,12 @@ def _pd_frame(ex, args, kwargs, node):
     which = "frame" if ast.unparse(node.func).endswith("DataFrame") else "series"
     index = kwargs.get("index", args[1] if len(args) > 1 else None)
     ex.emit("pandas_ctor", node, which=which, data=data, index=index, kwargs=kwargs, args=args)
+    if is_raw(data):
+        if which == "frame":
+            r = Num(sym("X"), (sym("n"), sym("p")), "float", "frame", meta={"alias_of": data, "index_arg": index, "normalised": True})
+            ex.atom_shapes[Atom("sym", "X").key] = (sym("n"), sym("p"))
+            return r
+        ex.emit("raw_use", node, what="operand of pandas.Series", value=data)
     if isinstance(data, Num):
         shape = data.shape
         if which == "frame" and shape is not None and len(shape) == 1:
@@ -1584,6 +1639,8 @@ def call_method(ex, recv, name, args, kwargs, node, frame):
 
 def opaque_method(ex, recv: OpaqueV, name, args, kwargs, node):
     k = recv.meta.get("kind")
+    if k == "raw":
+        ex.emit("raw_use", node, what=f".{name}()", value=recv)
     if k == "super":
         cls = recv.meta["cls"]
         obj = recv.meta["obj"]
